@@ -134,17 +134,30 @@ class C16(Check):
         # --- no-clobber, pre-existing files filled with a sentinel, and once more as empty files
         self.no_clobber(d, f"{n}s", asm, prtxt, fmt, wl, subset, case, ctx, lambda name: SENTINEL + name.encode(), retry_clean=clean)
         self.no_clobber(d, f"{n}z", asm, prtxt, fmt, wl, subset, case, ctx, lambda name: b"")
+        # ... as files that already hold exactly what this run would write (left over from an identical run) ...
+        self.no_clobber(d, f"{n}i", asm, prtxt, fmt, wl, subset, case, ctx, lambda name: clean[name])
+        # ... and as symbolic links to files kept elsewhere
+        self.no_clobber(d, f"{n}l", asm, prtxt, fmt, wl, subset, case, ctx, lambda name: SENTINEL + name.encode(), as_symlink=True)
         # --- clobber twins: the default, and --clobber given explicitly
         for explicit in (None, True):
             self.clobber_twin(d, f"{n}{'e' if explicit else 'd'}", asm, prtxt, fmt, wl, subset, clean, case, explicit, ctx)
 
-    def no_clobber(self, d, n, asm, prtxt, fmt, wl, subset, case, ctx, content, retry_clean=None):
+    def no_clobber(self, d, n, asm, prtxt, fmt, wl, subset, case, ctx, content, retry_clean=None, as_symlink=False):
+        import os
+
         ctx.evaluations += 1
         if len(subset) > 1:
             ctx.nontrivial += 1
         outd = self.fresh_out(d, f"n{n}")
+        side = None
+        if as_symlink:
+            side = self.fresh_out(d, f"t{n}")
         for name in subset:
-            (outd / name).write_bytes(content(name))
+            if as_symlink:
+                (side / name).write_bytes(content(name))
+                os.symlink(side / name, outd / name)
+            else:
+                (outd / name).write_bytes(content(name))
         rc, _o, err, _exc = cli.invoke_p2a(self.args(asm, prtxt, outd, fmt, wl, False))
         after = cli.dir_files(outd)
         log_text = b""
@@ -156,6 +169,9 @@ class C16(Check):
         for name in subset:
             if after.get(name) != content(name):
                 ctx.violation("no-clobber-file-altered", case, f"{name} changed ({len(after.get(name, b''))} bytes, was {len(content(name))})")
+                break
+            if as_symlink and (not os.path.islink(outd / name) or (side / name).read_bytes() != content(name)):
+                ctx.violation("no-clobber-file-altered/symlink-replaced", case, f"{name} was a symbolic link; afterwards link={os.path.islink(outd / name)}")
                 break
         else:
             if rc != 0:
@@ -171,6 +187,8 @@ class C16(Check):
             else:
                 self.compare_with_clean(cli.dir_files(outd), retry_clean, outd, d, case, ctx, "/after-refused-run")
         cli.cleanup(outd)
+        if side is not None:
+            cli.cleanup(side)
 
     def compare_with_clean(self, after, clean, outd, d, case, ctx, suffix=""):
         norm = lambda files: {k: (v.replace(str(outd).encode(), b"<OUT>") if k.endswith(".log") else v) for k, v in files.items()}  # noqa: E731
@@ -227,4 +245,4 @@ class C16(Check):
 _ = Path
 CHECK = C16()
 # scope added in later rounds, kept in the evidence text
-CHECK.rule += ' The pre-existing files also as empty files. History: the refused --no-clobber run is repeated at once in the same process and directory with the default --clobber: exit 0 and every file == clean run.'
+CHECK.rule += ' The pre-existing files also as empty files. Pre-existing files also with exactly the bytes the run would write, and as symbolic links to files elsewhere (the link must survive). History: the refused --no-clobber run is repeated at once in the same process and directory with the default --clobber: exit 0 and every file == clean run.'
